@@ -59,13 +59,13 @@ PROPS = {
         "add-only tables of 1-14 routes in random registration orders incl. >=5 literal siblings; probes as C01, ASCII; the table-only resolver `resolve` (Spec/Resolve.v) is evaluated on every probe",
         props=["TreeMatch", "C02order", "C02dfs", "C03lit", "C02resolve", "C03router", "Consts", "PureFuns"],
         level_text="C02_shortest_capture: for every matcher function, suffix and path, a parameter takes the SHORTEST accepted value that is followed by its literal suffix (no widening) - all inputs. C02_order_reachable / C02_literal_children_first / C02_sort_node_sorted: in every reachable tree the children of every node are ordered literal < interceptor < regexp < named and every index entry points at a literal child, so depth-first search tries the kinds in the documented priority (proved preserved through registration incl. splits, removal, clean, use). C02_first_successful_child(_precise) / C02_404_iff_all_fail: the answer comes from the FIRST child in search order (indexed literal, then the non-indexed children in kind order) whose subtree matches, every earlier child having failed - falling back, never widening (C02_no_widening, C02_outcome_independent_of_params); C02_kind_priority_no_index, C02_literal_indexed_wins, C02_sort_node_idx_complete. The full refinement 'match on the tree built from a table = outcomes(table)' is stated as the executable resolver Spec/Resolve.v and decided on the implementation on every probe.",
-        level_note="partial: kind-priority / first-byte-index / radix-split refinement to the table resolver (Repr invariant) is not proved; it is checked by evaluating the extracted resolver against implementation and model.",
+        level_note="C02_tree_refines_resolver_canon / _any_order (Proofs/TreeResolve*.v): on EVERY add-only history of well-formed, canonically spelled patterns and every path, the router's answer (route, parameters) is one of the answers of the table-only documented resolver (Spec/Resolve.v), 404 iff the resolver has none, never a fault; the guard on spellings is shown necessary (C02_tree_refines_resolver_refuted: {id:} vs {id}). C02_priority_is_source / C02_source_priority_separates_kinds / C02_type_order_is_source / C02_similarity_is_source: the sibling sort key, the kind order and Segment.Similarity are translated from the CURRENT source on every run (Gen/PureFuns.v) and proved equal to the model's. Router and facade programs: C02_router_refines_resolver_canon.",
         partial=["C02_priority (refinement tree -> outcomes) not proved"]),
     "C03": rt(350, 6000, ["remove", "clean"],
         "histories of 1-14 mutations (40% Remove/Clean, facades, >=5 literal siblings) with state dump, Routes() and one simple witness per pool pattern after every step",
         props=["C03", "C03find", "C03lit", "C03frame", "C03gone", "C03witness", "C03abs", "C03router"],
         level_text="At tree level, every reachable tree: C03_find_sound / C03_find_complete (the lookup used by Remove, URL and the duplicate check finds a node spelling the pattern iff one exists), C03_add_registers (an accepted Handle leaves a node with that pattern carrying the methods, OPTIONS and the 405 handler), C03_remove_effect / C03_remove_others_kept (Remove changes exactly the one node it looked up; every other node keeps pattern, handlers and method set), C03_remove_all_clears_partial, C03_absent_not_found; C03_pattern_once_refuted: with literal text containing unbalanced braces two nodes can spell the same pattern (outside the well-formed quantifier). On the abstract route table (C03_remove_frame, C03_remove_all, C03_clean_exact, C03_handle_frame, C03_use_keeps_routes): removal touches exactly the named pattern, Clean(prefix) exactly the patterns with that prefix. Routes()/dispatch of the implementation are compared with this table after every step, with the documented resolver deciding the winner on simple witnesses, and earlier dispatches are re-checked after removals (frame).",
-        level_note="partial: the refinement tree-state -> table (abs commutes with add/remove/clean) is checked by the dump correspondence and the oracles on every step, not proved.",
+        level_note="C03_tree_is_table (Proofs/TreeAbs.v): on every history of well-formed patterns the tree's handler maps ARE the entries of the abstract table machine run in lock step (same keys, same handler terms), C03_tree_table_perm, C03_routes_exact_partial. C03_remove_frame*/C03_clean_frame* (a request dispatched to another route / method / 404 is answered identically after Remove or Clean), C03_removed_pair_not_served, C03_removed_get_removes_head, C03_removed_route_gone, C03_cleaned_not_served_partial, C03_pattern_once_reachable, C03_remove_total/C03_clean_total, C03_literal_route_method, C03_simple_witness_served/_exact (every live route still serves its witnesses). All lifted to Router and Prefix/Resource programs (C03_router_*, C03_facade_*, C19_facade_history_is_router_history). Not proved: which of several matching live routes wins after removals beyond the first-successful-child / kind-order theorems (C02).",
         partial=["C03_refinement (abs_tree (step t op) = table_step (abs_tree t) op) not proved"]),
     "C04": rt(350, 6000, ["serve-options", "serve-405"],
         "histories as C03 (40% removals, WithTrace 50%) with OPTIONS and an unused method on every pool pattern and OPTIONS * after every step",
@@ -116,11 +116,11 @@ PROPS = {
         "CORS configurations (origins none/*/list/list+*, allow-headers none/*/list, exposed, max-age, credentials) x 40 random requests per case over method, path (live, unknown, *), Origin, ACRM, ACRH classes; thorough tier adds the exhaustive product (suite C11x)",
         suite="C11", props=["C11", "PureFuns"],
         level_text="C11_acao_sound, C11_acao_single, C11_credentials, C11_no_origins_no_grant, C11_unserved_preflight_method, C11_disallowed_header, C11_header_check_is_case_insensitive over every configuration, node method set and request (all byte strings).",
-        level_note="404/405 never reach the CORS code (serveContext calls it only when a handler was found): part of the model's creq_obs, compared on every case."),
+        level_note="C11_cors_handle_is_source (Proofs/PureCors.v): cors.handle of the CURRENT source, translated statement by statement on every run (Gen/PureFuns.v: the sequence of header writes as a function of its inputs), IS the model's decision procedure, for all inputs. 404/405 never reach the CORS code (serveContext calls it only when a handler was found): part of the model's creq_obs, compared on every case. Header-name comparison is modelled for ASCII (strings.EqualFold / TrimSpace are Unicode-aware: non-ASCII requested names are outside the model)."),
     "C12": rt(250, 4000, ["creq"],
         "as C11", suite="C12", props=["C12", "PureFuns"],
         level_text="C12_grant_partial(_hyp), C12_preflight_partial(_hyp), C12_not_preflight, C12_vary, C12_sanitize_rejects: exact header values for allowed requests, over every configuration and request.",
-        level_note="C12_grant / C12_preflight as first stated are false for a configured header list consisting of one empty string (joined to \"\" = not configured); proved with that case excluded (_partial_hyp) and in closed form (_partial)."),
+        level_note="C12_grant / C12_preflight as first stated are false for a configured header list consisting of one empty string (joined to \"\" = not configured); proved with that case excluded (_partial_hyp) and in closed form (_partial); C12_cors_handle_is_source: the header writes of cors.handle, translated from the current source on every run, are the model's (all inputs)."),
     "C13": rt(300, 5000, ["greq-U:h1", "greq-U:h2", "greq-NA", "greq-OP"],
         "groups of 1-4 routers with Hosts / path-version / header-version / nil / And-Or nests (depth <= 2) in which an early member mutates and a later one rejects; Add/New/Remove/Use histories; 14 requests per case over hosts x version prefixes x Accept x paths",
         suite="C13", props=["C13", "C14tree"],
@@ -130,7 +130,7 @@ PROPS = {
         "Add/Delete/RegisterInterceptor histories over >=6 literal domains + parameterised domains in mixed case; hosts in any case, with ports, brackets, invalid ports, '', '*'; dump after every step",
         suite="C14", props=["C14", "C14tree", "C14resolve"],
         level_text="C14_normalise_is_lower, C14_strip_port_valid/_invalid, C14_strip_brackets, C14_add_ci, C14_delete_ci, C14_match_uses_normalised; matching itself is the shared tree (C01/C02 theorems).",
-        level_note="partial: resolution of the normalised host against the registered domains is decided by the extracted resolver on add-only histories and simple witnesses; non-ASCII hosts are outside the model (strings.ToLower is Unicode-aware)."),
+        level_note="C14_hosts_bridge: a hosts history whose interceptor registrations precede the first Add is a tree history (the other order is shown to differ: C14_hosts_bridge_refuted); on such histories C14_hosts_refines_resolver / C14_hosts_accepts_iff_resolves (add-only: Match accepts iff the C02 resolver finds a domain, with exactly its parameters; '' and '*' always rejected), C14_hosts_delete_frame, C14_hosts_deleted_gone_ci, C14_hosts_sound, C14_hosts_live_served. Non-ASCII hosts/domains are outside the model (strings.ToLower is Unicode-aware). Known finding F28: a lookup deletes a pre-existing parameter named like a domain parameter (C14_hosts_reject_clean needs disjointness; _refuted shows why)."),
     "C15": rt(300, 5000, ["pv-accept", "hv-accept"],
         "version lists with/without slashes, overlapping names (v1, v11, v1/x), paths with recurring version text, arbitrary bytes; Accept headers well-formed/garbage (mime.ParseMediaType result supplied by Go)",
         suite="C15", props=["C15"],
@@ -156,7 +156,7 @@ PROPS = {
         "programs of facade calls (Prefix/Prefix.Prefix/Resource with middlewares, Handle, Remove, Clean, URL; empty prefixes, prefixes ending inside a token) run as written and desugared to Router calls on a twin router",
         suite="C19", props=["C19", "C03router"],
         level_text="C19_prefix_handle, C19_nested_prefix_handle, C19_resource_handle, C19_prefix_remove/_clean/_url, C19_resource_remove/_clean/_url, C19_prefix_clean_table: every facade call equals the Router call on the concatenated pattern and middleware list.",
-        level_note="near-definitional in the model; the weight is on the three-way differential (implementation facade run vs implementation desugared run vs model)."),
+        level_note="C19_facade_history_is_router_history / C19_nested_any_depth / C03_router_history_is_tree_history (Proofs/RouterLift.v): a whole program of facade calls, nested to any depth, runs exactly like its desugaring into Router calls and that like a tree history, so every tree-level theorem holds for facade programs (C03_facade_*). On the implementation: three-way differential (facade run vs desugared run vs model); a difference is tolerated only at a request for which the documented resolver admits several answers."),
     "C20": {
         "level_text": "Machine-checked theorems (C20_agree, C20_map_laws, C20_count_*, C20_pool_empty, C20_keys_unique) over all parameter sets, keys, defaults and all histories of Set/Delete/Reset/Destroy/NewContext of the Gallina model of types/context.go, relative to an arbitrary strconv; the model is tied to the code by running the same histories on both and comparing all 19 accessor results.",
         "level_note": "strconv is a theorem parameter (fed with Go's own results); sync.Pool modelled as a list; model/code tie is differential testing, not proof.",
